@@ -11,6 +11,11 @@
 #include "ref/parquet_reader.hpp"
 #include <dirent.h>
 #include <errno.h>
+#include <fcntl.h>
+#include <pthread.h>
+#include <sched.h>
+#include <signal.h>
+#include <sys/time.h>
 
 extern "C" int __lsan_do_recoverable_leak_check(void) __attribute__((weak));
 
@@ -272,7 +277,99 @@ static Verdict runAbort(const K &k) {
   return vd;
 }
 
+// ---------------------------------------------------------------------- pipe
+// A sink with a real descriptor (fileno works): the write end of a pipe drained by a consumer thread - blocking or
+// non-blocking, the pipe shrunk to one page or left at 64 KiB, the writing thread interrupted by a periodic signal whose
+// handler is installed without SA_RESTART (write(2) then transfers part of a block).  Such a sink never loses bytes it
+// accepted; a writer call may fail (EAGAIN, EINTR) - but if every call including close returns OK, the consumer must hold
+// exactly the fault-free file.
+static rc::Gen<cw::W> bulkW() {
+  return rc::gen::exec([]() {
+    cw::W w;
+    w.fs.root.name = "schema"; w.fs.root.group = true;
+    int ncols = *irange(1, 2);
+    for (int i = 0; i < ncols; i++) w.fs.root.kids.push_back(gf::leafNode("c" + std::to_string(i), *irange(0, 1), *rc::gen::element<int>(pq::INT64, pq::DOUBLE, pq::INT32), 0));
+    auto lv = pw::leaves(w.fs.root);
+    w.codec = *rc::gen::element(0, 0, 0, 1, 5, 6); w.page_size = *rc::gen::element<int64_t>(4096, 1 << 20); w.order = (uint32_t)*irange(1, 1 << 30); w.opts = *rc::gen::element(0, 0, 1, 2); w.level = 0;
+    size_t rows = (size_t)*irange(34000, 90000);
+    w.fs.rg_rows.push_back((int64_t)rows);
+    uint64_t sd = 0x9E3779B97F4A7C15ull ^ ((uint64_t)*irange(1, 1 << 30) << 1 | 1);
+    std::vector<pw::ChunkSpec> rg; std::vector<std::vector<int>> pc; std::vector<int> nl;
+    for (auto &lf : lv) {
+      pw::ChunkSpec cs; cs.n = rows;
+      if (lf.max_def) for (size_t i = 0; i < rows; i++) cs.def.push_back((gf::dxs(sd) >> 20) % 16 != 0);
+      size_t nn = 0; for (size_t i = 0; i < rows; i++) if (!lf.max_def || cs.def[i]) nn++;
+      size_t fw = lf.type == pq::INT32 ? 4 : 8;
+      for (size_t i = 0; i < nn; i++) { Bytes v(fw); for (auto &x : v) x = (uint8_t)(gf::dxs(sd) >> 24); cs.values.push_back(v); }
+      pw::PageSpec pg; pg.end = rows; cs.pages.push_back(pg);
+      rg.push_back(cs); nl.push_back(0);
+      std::vector<int> part; size_t left = rows; while (left) { size_t k = (size_t)*irange(1, (int)std::min<size_t>(left, 40000)); part.push_back((int)k); left -= k; }
+      pc.push_back(part);
+    }
+    w.fs.row_groups.push_back(rg); w.parts.push_back(pc); w.nolevels.push_back(nl); w.extra_nrg.push_back(0);
+    return w;
+  });
+}
+static rc::Gen<K> genKPipe() {
+  return rc::gen::map(rc::gen::pair(rc::gen::weightedOneOf<cw::W>({{2, smallW()}, {1, bulkW()}}), irange(1, 1 << 30)), [](const std::pair<cw::W, int> &p) { K k; k.w = p.first; k.seed = (uint32_t)p.second; return k; });
+}
+struct Drain { int fd = -1; Bytes data; size_t chunk = 4096; int pause = 0; };
+static void *drainThread(void *p) {
+  Drain *d = (Drain *)p;
+  std::vector<uint8_t> buf(d->chunk);
+  for (;;) {
+    ssize_t n = read(d->fd, buf.data(), buf.size());
+    if (n > 0) { d->data.insert(d->data.end(), buf.begin(), buf.begin() + n); for (int i = 0; i < d->pause; i++) sched_yield(); }
+    else if (n == 0) break;
+    else if (errno == EINTR || errno == EAGAIN) continue;
+    else break;
+  }
+  return nullptr;
+}
+static void onAlarm(int) {}
+static Verdict runPipe(const K &k) {
+  Verdict vd;
+  Bytes good;
+  if (!faultFree(k.w, good)) { vd.vacuous = true; vd.label("writer_refused"); return vd; }
+  auto lv = pw::leaves(k.w.fs.root);
+  long evals = 0, all_ok = 0;
+  for (int v = 0; v < 8; v++) {
+    bool nonblock = v & 1, signals = v & 2, tiny = v & 4;
+    int fds[2];
+    PBT_CHECK(vd, pipe(fds) == 0, "pipe() failed");
+    if (tiny) fcntl(fds[1], F_SETPIPE_SZ, 4096);
+    if (nonblock) fcntl(fds[1], F_SETFL, fcntl(fds[1], F_GETFL) | O_NONBLOCK);
+    Drain d; d.fd = fds[0]; d.chunk = 1 + (size_t)((k.seed >> (v & 3)) % 9000); d.pause = (int)((k.seed >> 8) % 4);
+    sigset_t blk, old; sigemptyset(&blk); sigaddset(&blk, SIGALRM); pthread_sigmask(SIG_BLOCK, &blk, &old);   // the consumer inherits the mask: the signal goes to the writing thread
+    pthread_t th; pthread_create(&th, nullptr, drainThread, &d);
+    pthread_sigmask(SIG_SETMASK, &old, nullptr);
+    FILE *fp = fdopen(fds[1], "wb");
+    PBT_CHECK(vd, fp != nullptr, "fdopen failed");
+    int buf = (int)((k.seed >> 12) % 3);
+    if (buf == 0) setvbuf(fp, nullptr, _IONBF, 0); else if (buf == 1) setvbuf(fp, nullptr, _IOFBF, 512);
+    struct sigaction sa, osa; memset(&sa, 0, sizeof sa); sa.sa_handler = onAlarm; sigemptyset(&sa.sa_mask); sa.sa_flags = 0;
+    struct itimerval it, zero; memset(&zero, 0, sizeof zero);
+    if (signals) { sigaction(SIGALRM, &sa, &osa); it.it_interval.tv_sec = 0; it.it_interval.tv_usec = 150 + (k.seed % 400); it.it_value = it.it_interval; setitimer(ITIMER_REAL, &it, nullptr); }
+    cw::WriteCtl ctl; ctl.sink = fp;
+    cw::runHistory(k.w, lv, ctl);
+    if (signals) { setitimer(ITIMER_REAL, &zero, nullptr); sigaction(SIGALRM, &osa, nullptr); }
+    if (nonblock) fcntl(fds[1], F_SETFL, fcntl(fds[1], F_GETFL) & ~O_NONBLOCK);   // the caller's own final flush may wait
+    int frc = fclose(fp);
+    pthread_join(th, nullptr);
+    close(fds[0]);
+    evals++;
+    if (ctl.any_nonok || frc != 0) { vd.label("pipe_writer_reported_failure"); continue; }
+    all_ok++;
+    PBT_CHECK(vd, d.data == good, "pipe sink (%s%s%s): every writer call including carquet_writer_close returned OK, but the consumer received %zu bytes that differ from the fault-free file of %zu bytes", nonblock ? "non-blocking" : "blocking", signals ? ", writes interrupted by signals" : "", tiny ? ", 4 KiB pipe" : "", d.data.size(), good.size());
+  }
+  vd.evals = std::max<long>(1, evals); vd.nontrivial = all_ok >= 2 && good.size() > 65536;
+  if (good.size() >= (256u << 10)) vd.label("pipe_file>=256KiB");
+  if (all_ok) vd.label("pipe_all_calls_ok");
+  return vd;
+}
+
 int main(int argc, char **argv) {
+  add<K>("pipe", 0.6, genKPipe, serK, deK, runPipe);
   add<K>("prefixes", 1, genK, serK, deK, runPrefixes);
   add<K>("sink", 1, genK, serK, deK, runSink);
   add<K>("stdio", 1, genK, serK, deK, runStdio);
